@@ -831,8 +831,17 @@ def extLines (useHex : Int → Bool) : Ext → List Bytes
   | .dests n u => [destsLine n u]
   | .clauses cl cs => (if cl then [sCleanup] else []) ++ cs.map (clauseLine useHex)
 
-/-- the lines of an instruction or terminator: its first line and the continuation lines -/
-def instLines (useHex : Int → Bool) (i : Inst) : List Bytes := (9 :: (instString useHex i ++ mdString i.md)) :: extLines useHex i.ext
+/-- `s` appended to the LAST line -/
+def appendLast : List Bytes → Bytes → List Bytes
+  | [], _ => []
+  | [l], s => [l ++ s]
+  | l :: m :: ls, s => l :: appendLast (m :: ls) s
+
+/-- the lines of an instruction or terminator: its first line and the continuation lines; the attachments stand at the end of the LAST line (`], !dbg !0`; `to label %a unwind label %b, !dbg !0`; after the last clause) -/
+def instLines (useHex : Int → Bool) (i : Inst) : List Bytes :=
+  match extLines useHex i.ext with
+  | [] => [9 :: (instString useHex i ++ mdString i.md)]
+  | e :: es => (9 :: instString useHex i) :: appendLast (e :: es) (mdString i.md)
 
 def blockLines (useHex : Int → Bool) (b : Block) : List Bytes :=
   labelString b.label :: (b.insts.flatMap (instLines useHex)) ++ instLines useHex b.term
@@ -968,6 +977,24 @@ def readExt (row : Nat) (ls : List Bytes) : Option (Ext × List Bytes) :=
      | [] => some (.clauses false [], []))
   else some (.none, ls)
 
+/-- how many continuation lines the instruction of this row has at the head of `ls`: a switch up to and including the line that starts with `<tab>]`, an invoke
+    one, a landingpad as many as start with two tabs -/
+def extCount (row : Nat) (ls : List Bytes) : Nat :=
+  if row == swRow then (ls.takeWhile fun l => !(TyParse.stripPrefix sCloseCases l).isSome).length + 1
+  else if invRows.contains row then 1
+  else if row == lpRow then (ls.takeWhile fun l => (TyParse.stripPrefix [9, 9] l).isSome).length
+  else 0
+
+/-- the continuation lines with the attachments taken off the last of them: (attachments, lines) -/
+def splitExtMd (n : Nat) (ls : List Bytes) : Option (List (Bytes × Nat) × List Bytes) :=
+  match ls.drop (n - 1) with
+  | [] => none
+  | last :: rest =>
+    let (body, mdtxt) := splitMd false last
+    match readMds (mdtxt.length + 1) mdtxt with
+    | some md => some (md, ls.take (n - 1) ++ body :: rest)
+    | none => none
+
 /-- the instruction lines of one block: up to and including the first terminator -/
 def readBody' : Nat → List Bytes → Option (List Inst × Inst × List Bytes)
   | 0, _ => none
@@ -977,13 +1004,15 @@ def readBody' : Nat → List Bytes → Option (List Inst × Inst × List Bytes)
     else match readInstMd l.tail with
       | none => none
       | some i0 =>
+        let n := extCount i0.row ls
+        -- a switch / invoke / landingpad with continuation lines carries its attachments at the end of its LAST line: on the first line they are a syntax error
+        match (if n == 0 then some (i0.md, ls) else if !i0.md.isEmpty then none else splitExtMd n ls) with
+        | none => none
+        | some (md, ls) =>
         match readExt i0.row ls with
         | none => none
         | some (x, ls) =>
-        -- (a switch / invoke / landingpad carries its attachments at the end of its LAST line, which is outside the fragment: on the first line they are
-        -- a syntax error)
-        if !i0.md.isEmpty && !extIsNone x then none else
-        let i : Inst := { i0 with ext := x }
+        let i : Inst := { i0 with ext := x, md := md }
         if isTerm i then some ([], i, ls)
         else match readBody' f ls with
           | some (is, t, rest) => some (i :: is, t, rest)
@@ -1516,7 +1545,9 @@ def wfSem (f : Func) : Bool := wfSemIn (selfEnv f) f && (mdUses f).isEmpty
     itself free of `, !` outside quoted names (decidable; evaluated by the driver on every generated function) -/
 def mdInstOKB (useHex : Int → Bool) (i : Inst) : Bool :=
   i.md.all (fun a => !a.1.isEmpty && decide (a.2 < 2 ^ 63)) && scanMd false (instString useHex i) == some false &&
-    (i.md.isEmpty || (extIsNone i.ext && !noMdRows.contains i.row))
+    (i.md.isEmpty || !noMdRows.contains i.row) &&
+    -- (the last continuation line, where the attachments of a switch / invoke / landingpad stand, has no `, !` of its own outside quoted names)
+    (match (extLines useHex i.ext).getLast? with | some l => scanMd false l == some false | none => true)
 
 def mdWF (useHex : Int → Bool) (f : Func) : Bool := f.blocks.all fun b => (instsOf b).all (mdInstOKB useHex)
 
